@@ -492,7 +492,26 @@ func generate(R *core.Rand, thorough bool, emit func(class string, nontrivial bo
 			if !m.applies(v, v.baseLen()+1) {
 				continue
 			}
-			for _, a := range m.args {
+			for ai, a := range m.args {
+				if m.name == "combo" {
+					// pairs of mutators: a seeded sample (quick: 12 per variant, thorough: 100 per variant, one context each)
+					lim := 12
+					if thorough {
+						lim = 100
+					}
+					if ai >= lim {
+						break
+					}
+					a = int64(R.Intn(len(m.args)))
+					r := recipe{vi, ctxs[R.Intn(len(ctxs))], R.Intn(2), m.name, a}
+					if sc := buildScenario(r); sc != nil && r.ctx != "tmpl" {
+						if _, dup := scMemo[r.String()]; !dup {
+							scMemo[r.String()] = sc
+							emit("combo/"+r.ctx, true, sc.line())
+						}
+					}
+					continue
+				}
 				// quick: every (variant, mutator, arg) in two or three different contexts, cache mode by the seed chosen by the seed; thorough: all contexts x both cache modes
 				var picks []recipe
 				if thorough {
